@@ -292,7 +292,9 @@ class uamiv(ioapi_base):
                 self.P_BET = 0.
                 self.P_GAM = 0.
             elif GDTYPE == 6:
-                self.P_ALP = {90: 1, -90: -1}[plat]
+                # north (1) or south (-1) polar: the hemisphere of the origin
+                # (of the true latitude when the origin is on the equator)
+                self.P_ALP = -1 if (plat if plat != 0 else tlat1) < 0 else 1
                 self.P_BET = tlat1
                 self.P_GAM = plon
             else:
